@@ -117,6 +117,12 @@ def run(ctx):
                   'whole with one Stream::write_all', lw.where(),
                   'Link::write does not deliver the serialised message with exactly one complete (write_all) write')
     ctx.floor('R14.1', 'Ok paths of Link::write', n_ok, 1)
+    # ... and never delivers it twice: the delivery is not inside a loop (write_all may have handed part of the buffer to the stream before it
+    # failed; retrying the whole buffer puts those bytes on the wire again, in the middle of a frame)
+    dls = [c for c in lw.calls if c.callee == STREAM_WRITE_ALL]
+    ctx.check(bool(dls) and not any(lw.in_cycle(c.block) for c in dls), 'R14.1', 'link_write:no_retry', 'the delivery of Link::write is not repeated', lw.where(),
+              'Link::write calls Stream::write_all inside a loop: after a partial write the whole buffer is sent again (bytes duplicated inside a frame), '
+              'or the frame is reported delivered after a failed attempt')
 
     # ---- R14.1c: census of count-returning writes in the whole program ----------------------
     n_cnt = 0
